@@ -150,7 +150,7 @@ def scrub(text):
 
 def pool():
     """colliding calls; built lazily inside the child so that spec objects shared between two threads are the SAME object"""
-    from glom import T, S, Coalesce, Fill, Match, Val, Check, M, Auto, Invoke
+    from glom import glom, T, S, Coalesce, Fill, Match, Val, Check, M, Auto, Invoke
     from glom.grouping import Group
     from .. import c06pool as P
     shared = (Y('s1'), {'c': Coalesce('zz', default=[T['a'], {'k': T['a']}]), 'f': Fill({'k': T['a'], 'l': [T['a'], 'lit']}),
@@ -171,6 +171,16 @@ def pool():
 
     def raise_uncopyable(t):
         raise Uncopyable(7, 'detail')
+    import operator
+    from glom import Call, Iter
+    shared_first = Iter().first(key=Call(operator.lt, args=(S.limit, T)))
+    shared_scope = {}
+
+    def with_shared_scope(tag):
+        def call(target, spec):
+            shared_scope['cfg'] = tag                 # the caller sets the dict up for ITS call ...
+            return glom(target, spec, scope=shared_scope)     # ... and glom copies it when the call starts
+        return call
     shared_vars = (S(v=Vars({'owner': None})), A.v.owner, Y('v1'), S.v.owner, Y('v2'), {'owner': S.v.owner})
     tree = lambda: {'v': 1, 'kids': [{'v': 2, 'kids': []}]}
     gm = Glommer()
@@ -196,6 +206,12 @@ def pool():
         ('shared-vars-2', lambda: 'second-owner', shared_vars),
         # a user-defined GlomError subclass that cannot be copied (constructor signature differs from .args), raised below two levels
         ('fail-uncopyable-glomerror', lambda: {'a': {'b': 1}}, ('a', Y('q1'), raise_uncopyable)),
+        # ONE first(key) spec whose key reads the scope, used by two calls with different bindings
+        ('shared-first-1', lambda: [3, 5, 9], (S(limit=Val(4)), Y('h1'), shared_first)),
+        ('shared-first-2', lambda: [3, 5, 9], (S(limit=Val(6)), Y('h2'), shared_first)),
+        # two callers that prepare ONE shared dict and pass it as scope=: glom works on a snapshot taken when the call starts
+        ('caller-scope-A', lambda: {'a': 1}, (Y('c1'), {'cfg': S.cfg, 'a': 'a'}, Y('c2')), with_shared_scope('A')),
+        ('caller-scope-B', lambda: {'a': 2}, ({'cfg': S.cfg, 'a': 'a'}, Y('c3')), with_shared_scope('B')),
         # calls made through a Glommer with a registry of its own (the module-level registry treats these types differently)
         ('glommer-type-1', lambda: P.UA(), ('x', Y('m1')), gm.glom),
         ('glommer-type-2', lambda: {'o': P.UB(), 'l': [P.UA()]}, {'v': ('o', Y('m2'), 'x'), 'w': ('l', Y('m3'), ['x'])}, gm.glom),
@@ -391,13 +407,14 @@ def compress(trace):
     return out
 
 
-PAIRS = [(0, 1), (0, 0), (2, 3), (2, 2), (4, 5), (4, 4), (6, 6), (7, 8), (0, 7), (6, 2), (4, 0), (5, 8), (9, 10), (9, 9), (11, 7), (12, 13), (14, 15), (14, 4), (15, 5), (16, 7), (17, 4), (18, 5)]
+PAIRS = [(0, 1), (0, 0), (2, 3), (2, 2), (4, 5), (4, 4), (6, 6), (7, 8), (0, 7), (6, 2), (4, 0), (5, 8), (9, 10), (9, 9), (11, 7), (12, 13), (14, 15), (17, 18), (14, 4), (15, 5), (16, 7), (21, 4), (22, 5)]
 
 
 def gen_lines(tier):
     """preemption bound 1: `first` pauses at its k-th line point, `second` runs to completion, `first` resumes"""
     cases = []
-    pairs = PAIRS[:17] if tier == 'quick' else [(i, j) for i in range(len(pool())) for j in range(len(pool())) if i <= j]
+    # the caller-scope entries (19, 20) race in the CALLER when pre-empted before glom() has copied the dict: callable granularity and re-entrancy only
+    pairs = PAIRS[:18] if tier == 'quick' else [(i, j) for i in range(len(pool())) for j in range(len(pool())) if i <= j and 19 not in (i, j) and 20 not in (i, j)]
     step = 2 if tier == 'quick' else 1
     for i, j in pairs:
         for first, second, idx in ((0, 1, i), (1, 0, j)):
